@@ -31,14 +31,14 @@ import (
 // ---------------------------------------------------------------- frame grammar
 
 type frameSpec struct {
-	Type   string `json:"t"`           // 3 bytes of message type
-	Chunk  string `json:"c"`           // chunk type byte
-	Size   string `json:"sz"`          // true, true-1, true+1, 0, 7, 8, 11, 12, 16, buf, buf+1, max
-	Chan   string `json:"ch"`          // right, zero, wrong
-	Token  string `json:"tok"`         // right, wrong            (non-OPN)
-	Seq    string `json:"seq"`         // next, zero
-	Req    string `json:"req"`         // pending, other
-	Body   string `json:"b"`           // valid, empty, opn, fault, unknown-type, abort, junk, trunc:<n>, atrunc:<n>
+	Type   string `json:"t"`             // 3 bytes of message type
+	Chunk  string `json:"c"`             // chunk type byte
+	Size   string `json:"sz"`            // true, true-1, true+1, 0, 7, 8, 11, 12, 16, buf, buf+1, max
+	Chan   string `json:"ch"`            // right, zero, wrong
+	Token  string `json:"tok"`           // right, wrong            (non-OPN)
+	Seq    string `json:"seq"`           // next, zero
+	Req    string `json:"req"`           // pending, other
+	Body   string `json:"b"`             // valid, empty, opn, fault, unknown-type, abort, junk, trunc:<n>, atrunc:<n>
 	Policy string `json:"pol,omitempty"` // OPN: none, <short real name>, garbage, 4k, null
 	Cert   string `json:"cert,omitempty"`
 	Thumb  string `json:"th,omitempty"`
@@ -1148,7 +1148,14 @@ func mainC13() {
 		return
 	}
 	thorough := evid.Thorough()
-	r.Rule("scripted TCP peer -> real receiving channel; contexts = channel kind {server, client} x {before any open (receiver with key / without key / client configured for Basic256Sha256), after a conforming mode-None open, after a REAL Sign / SignAndEncrypt open (proxy between a real client and a real server channel)}; per context the complete products G1 = message type(8) x chunk type(5) x size field(12: true, true+-1, 0, 7, 8, 11, 12, 16, buffer, buffer+1, 2^32-1) x channel id(3); G2 = {MSG,CLO} x {F,C,A} x token id(2) x sequence number(2) x request id(2) x body {valid, empty, OPN body, ServiceFault, unknown type, junk lengths, valid body truncated at EVERY length}; G3 = OPN x {F,C,A} x policy URI {None, 5 real, garbage, 4 KiB, null} x certificate {null, empty, valid, truncated DER, non-RSA} x thumbprint(3) x body(4) plus the OPN body truncated at every length; all ordered pairs (thorough: triples over the reduced alphabet) of the frames that deviate from a conforming MSG/OPN/CLO frame in at most one field; floods of intermediate chunks: request ids {1, MaxChunkCount, MaxChunkCount+1, 64, 1024(, 8192)} x chunks per id {1, MaxChunkCount, MaxChunkCount+1} x chunk size {1 byte, full buffer} x limits {finite small, library defaults, none}; counted as non-trivial and distinct: every (context, frame sequence / flood) - all of them are hostile or useless streams")
+	rule := "scripted TCP peer -> real receiving channel; contexts = channel kind {server, client} x {before any open: server with key, server without key, client None, client configured for Basic256Sha256/SignAndEncrypt; after a conforming mode-None open (client: with one request pending); after a REAL Basic256Sha256 Sign / SignAndEncrypt open (proxy between a real client and a real server channel)} = 10 contexts. Single frames, complete products: G1 = message type {MSG,OPN,CLO,HEL,ACK,ERR,XXX,NUL}(8) x chunk type {F,C,A,X,NUL}(5) x size field {true, true-1, true+1, 0, 7, 8, 11, 12, 16, buffer, buffer+1, 2^32-1}(12) x channel id {right, 0, wrong}(3); G2 = {MSG,CLO} x {F,C,A} x token id(2) x sequence number(2) x request id {pending, other}(2) x body {valid, empty, OPN body, ServiceFault, unknown type id, junk length prefixes, the valid body (resp. abort body) truncated at EVERY length}; G3 = OPN x {F,C,A} x policy URI {None, each of the 5 real, garbage, 4 KiB, null} x certificate {null, empty, valid, truncated DER, non-RSA} x thumbprint x body, plus the OPN body truncated at every length x channel id {right, 0}. "
+	if thorough {
+		rule += "thorough: G1-G3 in full in all 10 contexts; every ordered PAIR over the 1-field-deviation alphabet (conforming MSG/OPN/CLO frame with one field changed: ~75 frames; ~20 frames in the secured contexts) in all contexts; every ordered TRIPLE over the reduced alphabet (~20 frames) in the 6 unsecured contexts; "
+	} else {
+		rule += "quick: in the 6 unsecured contexts G1 in full, G2 with the every-length truncations only for the conforming token id/sequence number, G3 without garbage thumbprint and without the non-OPN body; in the 4 secured contexts (each case = one real RSA handshake) the right-channel-id part of G1 for MSG/OPN/CLO/XXX and all MSG body variants; every ordered PAIR over the reduced 1-field-deviation alphabet (~20 frames) in the 6 unsecured contexts; "
+	}
+	rule += "floods of intermediate chunks after a None open: request ids {1, MaxChunkCount, MaxChunkCount+1, 64, 1024(, 8192 thorough)} x chunks per id {1, MaxChunkCount, MaxChunkCount+1} x chunk size {1 byte, full buffer} x limits {MaxChunkCount 4/MaxMessageSize 16384/8 KiB buffers; library defaults 512/2 MiB/64 KiB; client whose peer announced 0/0} (client: also with the flood hitting the pending request id), each followed by a conforming message; floods above 48 MiB on the wire are left out. Counted as non-trivial and distinct: every (context, limits, frame sequence or flood) - all of them are hostile or useless streams"
+	r.Rule(rule)
 	total := enumerateC13(thorough, func(int64, c13Case) {})
 	r.Set("cases_enumerated", total)
 	if os.Getenv("CHUNKS_BENCH") != "" {
